@@ -177,7 +177,7 @@ def run(ctx):
                                                       statement="for all N>=1, bs>=1: rows [0, min(idx*bs, N)) written exactly once, none twice, none beyond N; done => all N rows")
     # (2) the code: every (N, bs) x model x options, hooks on
     nmax = 5 if thorough else 4
-    opts = list(OPTIONS) if thorough else ["plain", "blw"]
+    opts = ["plain", "bl", "w", "blw"] if thorough else ["plain", "blw"]      # (the special options are added below)
     jobs = []
     for s in ("u23", "s22"):
         for o in opts:
